@@ -223,7 +223,8 @@ def resolve(objs, op):
     if k == 'reset_thermo':
         th = e['thermos'][op[2]]
         if th is s._thermo: return ['nop'], lambda: None
-        if is_multi(s) and (any(p not in s.phases for p in getattr(s, '_streams', {})) or len(s.phases) > len(s._imol.data.rows)):
+        if is_multi(s) and (any(p not in s.phases or is_multi(v) for p, v in getattr(s, '_streams', {}).items())
+                            or len(s.phases) > len(s._imol.data.rows)):
             return ['nop'], lambda: s._reset_thermo(th)
         return ['setpkg', i, op[2]], lambda: s._reset_thermo(th)
     raise ValueError(k)
